@@ -88,7 +88,7 @@ int main(int argc, char **argv) {
             {1, rc::gen::exec([=] { Op o; o.kind = K_RAW; o.blob = c01_frame(mtu, own, *frame_t_gen()); return o; })}})));
         return c;
     });
-    bool ok = run_cases(a, ev, "c02-histories", a.n(8000, 200000), 100, gen, run);
+    bool ok = run_cases(a, ev, "c02-histories", a.n(40000, 400000), 100, gen, run);
     ev.write(a.out);
     return ok ? 0 : 1;
 }
